@@ -323,3 +323,16 @@ Example C16_example_year_zero_and_names :
   format_time k 1709210096 5 (-18000) (lit "EST") = Some (lit "Thursday, February 29 2024 7:34:56AM -0500") /\
   parse_time k (lit "Thursday, February 29 2024 7:34:56AM -0500") = Some (1709210096, 0, -18000).
 Proof. vm_compute. repeat split; reflexivity. Qed.
+
+(* the candidate-only route of the correspondence: the first second of year 10000 is outside
+   format_time's domain (Go prints five digits there); the case is then judged on Go's own
+   rendering of the selected candidate alone, and must say so (c_model = false) *)
+Example C16_example_candidate_route :
+  let l := asc "2006-01-02T15:04:05.000000Z07:00" in
+  let c := mk None None (Z.lor c_Ldate c_Lmicroseconds) ShJSON
+              [(ZoneUTC, l, asc "10000-01-01T00:00:00.000000Z")]
+              ([x22] ++ asc "10000-01-01T00:00:00.000000Z" ++ [x22])
+              253402300800 0 3600 (asc "CET") false false None in
+  model_text c = None /\ ok c = true /\ ok (mk (c_utc c) (c_layout c) (c_flags c) (c_shape c) (c_cands c) (c_observed c)
+                                            (c_sec c) (c_nsec c) (c_off c) (c_abbrev c) true false None) = false.
+Proof. vm_compute. repeat split; reflexivity. Qed.
